@@ -17,10 +17,16 @@ ASSUME = ["calls into the bundled std library are replaced, in the model program
 def run(ctx):
     fam = ctx.tlc_family("FamC09", constants={"Tier": '"%s"' % ctx.tier}, timeout=3000)
     ctx.exhaustive["FamC09"] = True
-    wd = ctx.sub("link")
+    judge_cases(ctx, fam)
+    return ctx.finish(rule=RULE, assumptions=ASSUME)
+
+
+def judge_cases(ctx, fam, tag="link"):
+    """link + type-check verdicts for both targets, then the Bash run of the accepted programs (also used by C07 for the rules across import boundaries)"""
+    wd = ctx.sub(tag)
     p0 = os.path.join(wd, "cases.ndjson")
     write_ndjson(p0, fam)
-    linked, _ = ctx.tlc("LinkRun", workdir=ctx.sub("tlc-link"), files=[(p0, "cases.ndjson")], timeout=3000)
+    linked, _ = ctx.tlc("LinkRun", workdir=ctx.sub("tlc-" + tag), files=[(p0, "cases.ndjson")], timeout=3000)
     lk = {v["id"]: v for v in linked}
     # verdicts of the real transpiler for both targets
     p1 = os.path.join(wd, "out.ndjson")
@@ -40,7 +46,7 @@ def run(ctx):
         exp = "A" if rule == "" else "R"
         if o["bash"] != exp or o["batch"] != exp:
             s = "specification: %s (%s); transpiler: bash=%s batch=%s %s" % ("accept" if exp == "A" else "reject", rule or "links and type-checks", o["bash"], o["batch"], o.get("bashErr", ""))
-            ctx.report_failure(c["id"] + "#verdict", {"property": "C09", "case": c["id"], "why": s, "files": c["prog"]["files"], "observed": o}, s)
+            ctx.report_failure(c["id"] + "#verdict", {"property": ctx.prop, "case": c["id"], "why": s, "files": c["prog"]["files"], "observed": o}, s)
             if exp == "A":
                 continue
         if rule == "":
@@ -64,9 +70,8 @@ def run(ctx):
         if not v["ok"]:
             failures.append((c, v, progflow.signature(c, v)))
     for c, v, sig in failures:
-        ctx.report_failure(c["id"], {"property": "C09", "case": c["id"], "why": sig, "files": c["prog"].get("files"), "script": c.get("script"),
+        ctx.report_failure(c["id"], {"property": ctx.prop, "case": c["id"], "why": sig, "files": c["prog"].get("files"), "script": c.get("script"),
                                      "expected": {"stdout": v["out"], "status": v["code"]}, "observed": c.get("obs"), "link_order": lk[c["id"]]["order"]}, sig)
-    return ctx.finish(rule=RULE, assumptions=ASSUME)
 
 
 def validate_linked(ctx, cases):
